@@ -3,7 +3,7 @@
     closed language that the harness renders as Python lambdas), and the
     write / load_delimited round trip through the csv codec model. *)
 From Coq Require Import QArith.
-From CG3 Require Import Lib.PyZ Lib.Chars Lib.StableSort Lib.Val Model.Csv Model.Table Model.TableLoad.
+From CG3 Require Import Lib.PyZ Lib.Chars Lib.StableSort Lib.Val Model.Csv Model.Table Model.TableLoad Model.TableCount.
 Open Scope Z_scope.
 Import ListNotations.
 
@@ -69,7 +69,9 @@ Inductive op :=
 | OAppended (newcol : option str) (self_title : str) (others : list (str * nat))
 | OTransposed (new : str) (sah : option str)
 | OCount (p : pred) (columns : option (list str))
-| ODistinct (columns : list str).
+| ODistinct (columns : list str)
+| OCountUnique (a : carg)        (* count_unique(arg): (keys scalar?, [(key, count)]) *)
+| ODistinctArg (a : carg).       (* distinct_values(arg) with every argument form: (scalar?, keys) *)
 
 Definition cell_val (c : cell) : val :=
   match c with
@@ -94,6 +96,12 @@ Definition apply_op (ts : list table) (cur : table) (o : op) : res (table * val)
   | OTransposed n s => tv (transposed cur n s)
   | OCount p c => bind (count cur (eval_pred p) c) (fun n => Ok (cur, VZ n))
   | ODistinct c => bind (distinct_values cur c) (fun ks => Ok (cur, VL (map (fun k => VL (map cell_val k)) ks)))
+  | OCountUnique a =>
+      bind (count_unique cur a) (fun r =>
+        Ok (cur, VL [VB (fst r); VL (map (fun kn => VL [VL (map cell_val (fst kn)); VZ (snd kn)]) (snd r))]))
+  | ODistinctArg a =>
+      bind (distinct_values_arg cur a) (fun r =>
+        Ok (cur, VL [VB (fst r); VL (map (fun k => VL (map cell_val k)) (snd r))]))
   end.
 
 Fixpoint run_ops (ts : list table) (cur : table) (ops : list op) : list val :=
